@@ -308,14 +308,13 @@ def walk_tree(
         # circumvent the fact that json only allows keys to be strings. It is
         # not useful to the user and adds a lot of noise, thus skip key_types.
         # Only the DictNode's own child is meant: a user's key or attribute
-        # may be called "key_types" as well.
+        # may be called "key_types" as well. The key types are only hidden when
+        # there is nothing to report about them: keys of an untrusted type
+        # (e.g. None or an instance of a str subclass) are shown like any other
+        # untrusted content.
         key_types = children["key_types"]
-        if not (isinstance(key_types, ListNode) and key_types.is_safe()):
-            raise ValueError(
-                "An invalid 'key_types' node was encountered, please report the "
-                "issue here: https://github.com/skops-dev/skops/issues"
-            )
-        children = {k: v for k, v in children.items() if k != "key_types"}
+        if isinstance(key_types, ListNode) and key_types.is_safe():
+            children = {k: v for k, v in children.items() if k != "key_types"}
 
     yield from walk_tree(
         children,
